@@ -142,6 +142,10 @@ func runCheck(def *CheckDef, tier string, seed int, noKnown, noReplay bool, only
 		}
 	}
 	jobs := def.Jobs(tier)
+	checkBudget := 60 * time.Minute
+	if v, err := strconv.Atoi(os.Getenv("VERIF_THOROUGH_MIN")); err == nil && v > 0 {
+		checkBudget = time.Duration(v) * time.Minute
+	}
 	if only != "" {
 		var f []JobSpec
 		for _, j := range jobs {
@@ -187,7 +191,18 @@ func runCheck(def *CheckDef, tier string, seed int, noKnown, noReplay bool, only
 			// no job may run away: exceeding the budget is reported as inconclusive
 			budget = 10 * time.Minute
 			if tier == "thorough" {
+				// thorough tier: 20 minutes per job, and the whole check inside checkBudget (default 60 min):
+				// what is left is shared by the jobs still to run (never less than 2 minutes each); a job that
+				// exhausts its share without a violation is reported as PARTIAL, not as success
 				budget = 20 * time.Minute
+				left := checkBudget - time.Since(t0)
+				share := left / time.Duration(len(jobs)-i)
+				if share < budget {
+					budget = share
+				}
+				if budget < 2*time.Minute {
+					budget = 2 * time.Minute
+				}
 			}
 		}
 		lim.Deadline = time.Now().Add(budget)
